@@ -107,6 +107,7 @@ fn main() {
         "dbgdops" => debug_dops(),
         "dbgsyncval" => debug_syncval(),
         "dbgreset" => debug_reset(),
+        "dbgbound" => debug_bound(),
         "selftest" => match self_test() {
             Ok(()) => println!("self-test ok"),
             Err(e) => {
@@ -226,5 +227,33 @@ pub fn debug_reset() {
     unsafe {
         go::<Rs>(&data, &env);
         go::<Ng>(&data, &env);
+    }
+}
+
+#[allow(dead_code)]
+pub fn debug_bound() {
+    use api::*;
+    unsafe fn go<Zx: Z>(level: i32, st: i32, wb: i32, ml: i32, data: &[u8]) {
+        let mut s = Strm::plain();
+        Zx::deflateInit2_(s.p(), level, 8, wb, ml, st, Zx::zlibVersion(), STREAM_SIZE);
+        let bound = Zx::deflateBound(s.p(), data.len() as _) as usize;
+        let mut out = vec![0u8; 200];
+        s.z.next_in = data.as_ptr();
+        s.z.avail_in = data.len() as u32;
+        s.z.next_out = out.as_mut_ptr();
+        s.z.avail_out = 200;
+        let r = Zx::deflate(s.p(), Z_FINISH);
+        let n = 200 - s.z.avail_out as usize;
+        println!("{}: bound {bound} ret {r} produced {n}: {}", Zx::NAME, engine::hex(&out[..n]));
+        Zx::deflateEnd(s.p());
+    }
+    let data = inputs::nine_bit(15);
+    println!("data {}", engine::hex(&data));
+    unsafe {
+        for (l, st, wb, ml) in [(3, 2, -15, 1), (6, 0, -15, 8), (6, 0, -14, 8), (1, 0, -15, 8), (0, 0, -15, 8)] {
+            println!("level {l} strategy {st} wb {wb} ml {ml}");
+            go::<Rs>(l, st, wb, ml, &data);
+            go::<Ng>(l, st, wb, ml, &data);
+        }
     }
 }
